@@ -264,10 +264,19 @@ def r48_no_global_writer(ctx, extra_modules=None):
     repo = ctx.repo
     n_funcs = 0
     value_cls = [repo.cls(q) for q in VALUE_CLASSES]
+    MEMO = ('lru_cache', 'cache', 'cached_property', 'memoize', 'memoized', 'singledispatch')
     for m in repo.modules.values():
         mod_names = _module_level_names(m)
         for f in [g for g in repo.funcs.values() if g.module is m]:
             n_funcs += 1
+            # a memoising decorator is a process-wide table keyed by the arguments: what the function returns for an argument
+            # seen before is what it returned then (a ballot file read again after it changed, a value printed under another
+            # display setting), whatever happened in between
+            for d in f.node.decorator_list:
+                nm = unparse(d.func if isinstance(d, ast.Call) else d).split('.')[-1]
+                if nm in MEMO:
+                    ctx.bad(R, d, f, 'no function keeps results from earlier calls (memoisation is process-global state)',
+                            '@%s on %s: results survive from one election / one file read to the next' % (unparse(d), f.qualname))
             local_names = set(f.params)
             g = f
             while g is not None:
@@ -276,6 +285,17 @@ def r48_no_global_writer(ctx, extra_modules=None):
             for n in f.own_nodes():
                 if isinstance(n, ast.Global):
                     ctx.bad(R, n, f, 'no function rebinds a module-level name', '`global %s`' % ', '.join(n.names))
+                # interpreter-wide settings (they outlive the election that changed them, and the reader / the arithmetic rely on
+                # the defaults: the int <-> str digit limit is what turns an absurd number in a ballot file into a profile error)
+                if isinstance(n, ast.Call):
+                    fn_ = unparse(n.func)
+                    if fn_ in GLOBAL_SETTERS or (fn_.startswith('sys.set') and fn_ != 'sys.settrace') or fn_.startswith('os.environ.') \
+                            or fn_.endswith('.setlocale') or fn_ in ('os.putenv', 'os.unsetenv'):
+                        ctx.bad(R, n, f, 'no function changes an interpreter-wide setting',
+                                '`%s` changes a process-global setting that nothing restores: later elections (and file reads) in the process '
+                                'run under it' % unparse(n)[:80])
+                if isinstance(n, ast.Subscript) and isinstance(n.ctx, (ast.Store, ast.Del)) and unparse(n.value) == 'os.environ':
+                    ctx.bad(R, n, f, 'no function changes an interpreter-wide setting', 'store into os.environ')
                 # stores through attribute of a class object / module
                 if isinstance(n, ast.Attribute) and isinstance(n.ctx, (ast.Store, ast.Del)):
                     base = n.value
@@ -384,6 +404,9 @@ def r48_no_global_writer(ctx, extra_modules=None):
 # R49
 # ---------------------------------------------------------------------------
 
+GLOBAL_SETTERS = ('os.chdir', 'os.umask', 'random.seed', 'signal.signal', 'signal.setitimer', 'warnings.filterwarnings', 'warnings.simplefilter',
+                  'locale.setlocale', 'decimal.setcontext', 'gc.disable', 'gc.enable', 'gc.set_threshold', 'threading.setprofile', 'threading.settrace',
+                  'faulthandler.enable', 'atexit.register', 'sys.setrecursionlimit', 'sys.set_int_max_str_digits', 'sys.setswitchinterval')
 PASSTHROUGH = ('sorted', 'list', 'tuple', 'reversed', 'iter', 'next', 'zip', 'enumerate', 'max', 'min', 'filter')
 PASS_METHODS = ('get', 'setdefault', 'pop', 'values', 'items', 'copy')
 
